@@ -143,8 +143,19 @@ impl<TInner> Negotiated<TInner> {
                     header,
                     protocol,
                 } => {
-                    let msg = match Pin::new(&mut io).poll_next(cx)? {
-                        Poll::Ready(Some(msg)) => msg,
+                    // Note: On every early return the state must be restored, as
+                    // the stream may still be polled (read, flushed, closed) after
+                    // an error and must then not be found in `State::Invalid`.
+                    let msg = match Pin::new(&mut io).poll_next(cx) {
+                        Poll::Ready(Some(Ok(msg))) => msg,
+                        Poll::Ready(Some(Err(err))) => {
+                            *this.state = State::Expecting {
+                                io,
+                                header,
+                                protocol,
+                            };
+                            return Poll::Ready(Err(err.into()));
+                        }
                         Poll::Pending => {
                             *this.state = State::Expecting {
                                 io,
@@ -154,6 +165,11 @@ impl<TInner> Negotiated<TInner> {
                             return Poll::Pending;
                         }
                         Poll::Ready(None) => {
+                            *this.state = State::Expecting {
+                                io,
+                                header,
+                                protocol,
+                            };
                             return Poll::Ready(Err(ProtocolError::IoError(
                                 io::ErrorKind::UnexpectedEof.into(),
                             )
@@ -182,6 +198,11 @@ impl<TInner> Negotiated<TInner> {
                         return Poll::Ready(Ok(()));
                     }
 
+                    *this.state = State::Expecting {
+                        io,
+                        header,
+                        protocol,
+                    };
                     return Poll::Ready(Err(NegotiationError::Failed));
                 }
 
